@@ -151,6 +151,7 @@ func TestVerifC19Handler(t *testing.T) {
 	idx := 0
 	// modelCtx / reqCtx < 0: not set (PARAMETER num_ctx of the model / "num_ctx" option of the request)
 	runH := func(tc *c19Case, sys string, mm, req []c19Msg, parallelEnv string, modelCtx, reqCtx int) {
+		tools := tc.tools
 		i := idx
 		idx++
 		name := fmt.Sprintf("c19m%d", i)
@@ -215,7 +216,7 @@ func TestVerifC19Handler(t *testing.T) {
 					}
 				}
 			}()
-			creq := api.ChatRequest{Model: name, Messages: toAPI(req), Stream: &stream}
+			creq := api.ChatRequest{Model: name, Messages: toAPI(req), Stream: &stream, Tools: tools}
 			if reqCtx >= 0 {
 				creq.Options = map[string]any{"num_ctx": reqCtx}
 			}
@@ -252,7 +253,8 @@ func TestVerifC19Handler(t *testing.T) {
 		// drop the model again: name resolution scans every manifest, so keeping them makes the run quadratic
 		createRequest(t, s.DeleteHandler, api.DeleteRequest{Model: name})
 		line := fmt.Sprintf("hchat %d %d %s %s %d %s %s %s %s %s", e.fixed, dflt, opt(modelCtx), opt(reqCtx), loadedParallel,
-			zzverif.Hex([]byte(tc.src)), tc.ast, zzverif.Hex([]byte(sys)), c19MsgTokens(mm), c19MsgTokens(req))
+			zzverif.Hex([]byte(tc.src)), tc.ast+fmt.Sprintf(" %d %s", len(tools), zzverif.Hex([]byte(tools.String()))), zzverif.Hex([]byte(sys)), c19MsgTokens(mm), c19MsgTokens(req))
+		out.Count(fmt.Sprintf("handler_tools_%d", len(tools)))
 		out.Case(line, impl)
 		out.Count(fmt.Sprintf("handler_loaded_parallel_%d", loadedParallel))
 		if modelCtx >= 0 {
@@ -308,7 +310,7 @@ func TestVerifC19Handler(t *testing.T) {
 				}
 				in = append(in, conv[i:]...)
 				var b bytes.Buffer
-				if err := e.tmplOf(tc).Execute(&b, template.Values{Messages: in}); err != nil {
+				if err := e.tmplOf(tc).Execute(&b, template.Values{Messages: in, Tools: tools}); err != nil {
 					return "", false
 				}
 				return b.String(), true
@@ -401,6 +403,13 @@ func TestVerifC19Handler(t *testing.T) {
 			// the serialised tree is regenerated from the source: find the system field by re-serialising
 			skip := len(strings.Fields(tc.ast))
 			pos += skip
+			if nt, _ := strconv.Atoi(next()); nt > 0 {
+				if err := json.Unmarshal(zzverif.Unhex(next()), &tc.tools); err != nil {
+					t.Fatal(err)
+				}
+			} else {
+				next()
+			}
 			sys := string(zzverif.Unhex(next()))
 			readMsgs := func() []c19Msg {
 				k, _ := strconv.Atoi(next())
@@ -435,7 +444,7 @@ func TestVerifC19Handler(t *testing.T) {
 			tc = &c19Case{}
 			switch x := r.Intn(10); {
 			case x < 5:
-				tc.style = r.Intn(4)
+				tc.style = r.Intn(len(c19TemplateSrc))
 			case x < 8:
 				tc.style, tc.src = c19StyleGenerated, c19GenMessagesTemplate(r)
 			default:
@@ -445,6 +454,10 @@ func TestVerifC19Handler(t *testing.T) {
 			if tc.ast != "X" {
 				break
 			}
+		}
+		// tools only for templates that mention them (otherwise the handler answers "does not support tools")
+		if strings.Contains(tc.src, ".Tools") && r.Chance(2, 3) {
+			tc.tools = c19GenTools(r)
 		}
 		words := func(j int, mark string) string {
 			parts := []string{fmt.Sprintf("%s%dq", mark, j)}
